@@ -71,6 +71,8 @@ CHECKS["C11"] = dict(
           "Parser clause (Dec/ParserForm.v, C11_parser_chain_roundtrip): for any tables, any stable set not containing the mother and any "
           "single-line chain the parser model builds, from_dict succeeds and to_dict returns — with fuel bounded by the size of the chain — "
           "the same dictionary up to a permutation of the daughters at every level (mother, bf, model information equal). "
+          "Consequently the class form's to_string() of such a chain is the descriptor of the parser's dictionary, the single entry of its expansion "
+          "(C11_parser_class_descriptor, any pattern pair). "
           "Termination of to_dict on class-form chains that do not come from the parser (cyclic decays dicts) is not claimed."),
     design="DESIGN.md §5 C11",
     technique="Coq proof (permutation/count_occ, sorting canonical form, str.split model, accumulator invariants for _build_decay_modes on to_dict output and on parser chains, determinism of the unfolding relation) + differential correspondence")
